@@ -700,6 +700,21 @@ class XlsxRowWriter(AbstractRowWriter):
         assert row_to_write is not None
 
         row_index = self.location.line
+        # Refuse the row as a whole before any of its cells is written.
+        exceeds_excel_limits = (row_index >= self.worksheet.xls_rowmax) or (len(row_to_write) > self.worksheet.xls_colmax)
+        for item in row_to_write:
+            if isinstance(item, str):
+                exceeds_excel_limits = exceeds_excel_limits or (len(item) > self.worksheet.xls_strmax)
+                try:
+                    item.encode("utf-8")
+                except UnicodeEncodeError as error:
+                    raise errors.DataFormatError("cannot write cell to Excel file: %s" % error, self.location)
+        if exceeds_excel_limits:
+            raise errors.DataFormatError(
+                "cannot write row to Excel file because it exceeds the limits of Excel "
+                "(1048576 rows, 16384 columns, 32767 characters)",
+                self.location,
+            )
         for item in row_to_write:
             assert item is not None
             assert not isinstance(item, bytes), "item must be a string: %r" % item
